@@ -30,12 +30,12 @@ MANIFEST = {
             "heartbeats are c,c+1,...,252,0,... over ANY history while forced ones carry 0xFF and do not count; for EVERY interval up to "
             "655320 ms the message has the published layout and its interval bytes decode at 10 ms resolution to the interval within "
             "10 ms; SetHeartbeatIntervalAndOffset is characterised for EVERY argument, device index and device (keep own / default / "
-            "disable / clip to 1000..655320, NextTime); in inactive modes none of the three heartbeat entry points hands anything to SendMsg. Correspondence and oracle: real node "
+            "disable / clip to 1000..655320, NextTime); for EVERY received PGN 126208 request the 126993 handler (Model/GroupFunction.lean) passes on only keep / default / 1000..60000 ms, never 0, so a request cannot switch the heartbeat off; in inactive modes none of the three heartbeat entry points hands anything to SendMsg. Correspondence and oracle: real node "
             "behind the mock driver under a virtual clock, both timer builds, 1..9 devices, jittered polls, gaps of several periods, "
-            "polls landing on grid points, >253 heartbeats, interval changes at arbitrary times, origins near 2^31 and 2^32; the oracle "
+            "polls landing on grid points, >253 heartbeats, interval changes at arbitrary times, group-function requests for PGN 126993 arriving over the bus (interval 0, 1..999, 1000, 60000, 60001, restore, keep, random; offsets; parameter pairs), origins near 2^31 and 2^32; the oracle "
             "computes the grid from the observed open time and the configured interval/offset alone and decodes the payload.",
     'design_ref': 'DESIGN.md section 4, C12',
     'note': "Trusted: Lean kernel; hand model tied by the differential run; the clock hypothesis above. The node-level grid theorem "
-            "assumes the heartbeat is configured after Open() (RunOk). The group-function request path (C09) reaches "
-            "SetHeartbeatIntervalAndOffset with 1000..60000 ms, covered by C12_clip_group_function; its acknowledgement logic is C09's.",
+            "assumes the heartbeat is configured after Open() (RunOk). The group-function request path is covered by "
+            "C12_clip_group_function_request over C09's handler model (imported, not re-modelled); the acknowledgement frames are C09's and are not compared here.",
 }
